@@ -6,8 +6,10 @@
    Model/Duration.v (C09), interval_new, Timezone(key), FixedTimezone(offset, name).  Tied to /repo by the C14 correspondence run.
    Routes: RPickle p (any protocol p), RCopy, RDeep;  not_deep r  means  r is a pickle protocol or copy.copy.
    A DateTime is (wall microseconds W, fold, tzinfo); `zdb` maps a Timezone key to its tz table (Spec/Zone.v), universally quantified.
+   A tzinfo is None, a pendulum Timezone / FixedTimezone, or TzForeign: a standard-library tzinfo (datetime.timezone(offset), zoneinfo.ZoneInfo(key)),
+   as carried by dt.astimezone(datetime.timezone.utc) or DateTime(..., tzinfo=ZoneInfo(..)); DateTime.tz / .timezone are None for those.
    Theorems named *_refuted record genuine defects of /repo (known_findings/C14.json); *_partial hold on the stated region only. *)
-From Coq Require Import ZArith List Bool.
+From Coq Require Import ZArith List Bool String.
 From Coq Require Import Floats.SpecFloat.
 From PV Require Import Lib.PyBase Spec.Cal Spec.Zone Spec.TdFloat Model.Duration Model.Pickle Proofs.ZoneFacts Proofs.C09Facts Proofs.C14Facts.
 Import ListNotations.
@@ -27,11 +29,51 @@ Theorem roundtrip_fixed_timezone : forall r off name,
 Proof. exact (fun r off name H => tz_rebuild_id r (TzFixed off name) H). Qed.
 Print Assumptions roundtrip_fixed_timezone.
 
+(* a standard-library tzinfo is a value of the trusted protocol: every route gives back an equal object *)
+Theorem roundtrip_foreign_tzinfo : forall r s, tz_rebuild r (TzForeign s) = Ok (TzForeign s).
+Proof. exact (fun r s => tz_rebuild_id r (TzForeign s) I). Qed.
+Print Assumptions roundtrip_foreign_tzinfo.
+
 (* ---- DateTime *)
-(* deepcopy: DateTime.__deepcopy__ passes every field, tz and fold *)
+(* the attributes the state / keyword lists may name: tz and timezone are None for a standard-library tzinfo, tzinfo is the tzinfo *)
+Theorem datetime_tz_attribute : forall y mo d h mi s us fold tz,
+  dt_attr_f y mo d h mi s us fold tz "tz"%string = Some (ATz (pendulum_tz tz)) /\
+  dt_attr_f y mo d h mi s us fold tz "timezone"%string = Some (ATz (pendulum_tz tz)) /\
+  dt_attr_f y mo d h mi s us fold tz "tzinfo"%string = Some (ATz tz).
+Proof. exact dt_tz_attribute. Qed.
+Print Assumptions datetime_tz_attribute.
+
+Theorem datetime_tz_attribute_none_for_foreign_tzinfo : forall s, pendulum_tz (TzForeign s) = TzNone.
+Proof. exact pendulum_tz_foreign. Qed.
+Print Assumptions datetime_tz_attribute_none_for_foreign_tzinfo.
+
+(* deepcopy: DateTime.__deepcopy__ passes every field, tzinfo=self.tzinfo and fold: the value itself comes back, for EVERY tzinfo
+   (None, Timezone, FixedTimezone, standard-library tzinfo).  Full strength since `fix: DateTime.__deepcopy__ keeps a tzinfo that is not a
+   pendulum timezone` (finding deepcopy-foreign-tzinfo-naive: with tzinfo=self.tz the copy of a TzForeign value was naive). *)
 Theorem roundtrip_datetime_deepcopy : forall v, dt_valid v -> dt_rebuild RDeep v = Ok v.
 Proof. exact dt_rebuild_deep. Qed.
 Print Assumptions roundtrip_datetime_deepcopy.
+
+(* the former failing inputs: 2013-10-27T02:30 fold=1 with datetime.timezone.utc / datetime.timezone(-01:01:01) / ZoneInfo("Europe/Paris")
+   deep-copy to themselves: aware, offsets 0 / -3661 / +3600, same instants *)
+Theorem roundtrip_datetime_deepcopy_foreign_tzinfo :
+  dt_rebuild RDeep (mkdt W_0230 true (TzForeign (StdOffset 0))) = Ok (mkdt W_0230 true (TzForeign (StdOffset 0))) /\
+  dt_obs zdb_paris (mkdt W_0230 true (TzForeign (StdOffset 0))) = [2013; 10; 27; 2; 30; 0; 0; 1; 1; 0; W_0230; 3; 0] /\
+  dt_rebuild RDeep (mkdt W_0230 true (TzForeign (StdOffset (-3661)))) = Ok (mkdt W_0230 true (TzForeign (StdOffset (-3661)))) /\
+  dt_obs zdb_paris (mkdt W_0230 true (TzForeign (StdOffset (-3661)))) = [2013; 10; 27; 2; 30; 0; 0; 1; 1; -3661; W_0230 + 3661 * 1000000; 3; -3661] /\
+  dt_rebuild RDeep (mkdt W_0230 true (TzForeign (StdZone 0))) = Ok (mkdt W_0230 true (TzForeign (StdZone 0))) /\
+  dt_obs zdb_paris (mkdt W_0230 true (TzForeign (StdZone 0))) = [2013; 10; 27; 2; 30; 0; 0; 1; 1; 3600; W_0230 - 3600 * 1000000; 4; 0].
+Proof. exact dt_deepcopy_foreign_witness. Qed.
+Print Assumptions roundtrip_datetime_deepcopy_foreign_tzinfo.
+
+(* every route keeps a standard-library tzinfo: the copy is aware with the same tzinfo and fields; fold as on the other DateTimes
+   (kept by deepcopy, 0 after pickle / copy.copy); offset and instant equal unless the fold decides them *)
+Theorem datetime_foreign_tzinfo_every_route : forall zdb r W f s, wall_in_range W = true ->
+  exists v', dt_rebuild r (mkdt W f (TzForeign s)) = Ok v' /\ dt_tz v' = TzForeign s /\ dt_W v' = W /\ dt_aware v' = true
+             /\ dt_fold v' = match r with RDeep => f | _ => false end
+             /\ (~ fold_matters zdb (mkdt W f (TzForeign s)) -> dt_obs_nofold zdb v' = dt_obs_nofold zdb (mkdt W f (TzForeign s))).
+Proof. exact dt_foreign_every_route. Qed.
+Print Assumptions datetime_foreign_tzinfo_every_route.
 
 (* pickle (every protocol) and copy.copy: what comes back is EXACTLY the fold=0 reading of the same fields and tzinfo *)
 Theorem datetime_pickle_copy_is_fold0_reading : forall r v, not_deep r -> dt_valid v ->
@@ -45,7 +87,7 @@ Proof. exact dt_rebuild_fold0. Qed.
 Print Assumptions roundtrip_datetime_partial.
 
 (* and, with fold = 1, fields / UTC offset / UTC instant / zone still agree unless the zone distinguishes the two folds at this
-   wall second (fold_matters: a named zone where off_local z w false <> off_local z w true, i.e. repeated or skipped) *)
+   wall second (fold_matters: a Timezone or ZoneInfo where off_local z w false <> off_local z w true, i.e. repeated or skipped) *)
 Theorem roundtrip_datetime_instant_partial : forall zdb r v, not_deep r -> dt_valid v -> ~ fold_matters zdb v ->
   exists v', dt_rebuild r v = Ok v' /\ dt_obs_nofold zdb v' = dt_obs_nofold zdb v.
 Proof. exact dt_pickle_copy_instant. Qed.
@@ -57,6 +99,13 @@ Theorem datetime_pickle_copy_changes_instant : forall zdb r v k, not_deep r -> d
   exists v', dt_rebuild r v = Ok v' /\ dt_inst zdb v' <> dt_inst zdb v /\ dt_off zdb v' <> dt_off zdb v /\ dt_fold v' <> dt_fold v.
 Proof. exact dt_pickle_copy_changes. Qed.
 Print Assumptions datetime_pickle_copy_changes_instant.
+
+(* the same when the zone is carried as a zoneinfo.ZoneInfo *)
+Theorem datetime_pickle_copy_changes_instant_zoneinfo : forall zdb r v k, not_deep r -> dt_valid v ->
+  dt_tz v = TzForeign (StdZone k) -> dt_fold v = true -> ~ wall_unique (zdb k) (dt_W v / MEG) ->
+  exists v', dt_rebuild r v = Ok v' /\ dt_inst zdb v' <> dt_inst zdb v /\ dt_off zdb v' <> dt_off zdb v /\ dt_fold v' <> dt_fold v.
+Proof. exact dt_pickle_copy_changes_zoneinfo. Qed.
+Print Assumptions datetime_pickle_copy_changes_instant_zoneinfo.
 
 (* witness: Europe/Paris 2013-10-27T02:30 fold=1 (+01:00, a repeated wall time of a well-formed table) comes back +02:00, an hour earlier *)
 Theorem roundtrip_datetime_pickle_copy_refuted :
